@@ -385,7 +385,11 @@ func (e *Engine) callFn(fr *Frame, instr ssa.Instruction, fn *ssa.Function, args
 		return e.pureCall(ctx, c), ctx.pcOut
 	}
 	if c := e.contracts[name]; c != nil && !c.Inline && fn != e.topFn && !(fr != nil && fr.clause) {
-		return e.modularCall(ctx, c), ctx.pcOut
+		r := e.modularCall(ctx, c)
+		if r != nil {
+			e.callHist["last:"+name] = r
+		}
+		return r, ctx.pcOut
 	}
 	if fn.Blocks != nil && (e.isOurs(fn) || e.inlineFns[name]) {
 		path := ""
@@ -847,6 +851,20 @@ func (e *Engine) havocLoc(st *State, ml modTarget) {
 		n := "G:" + ml.name
 		if s, ok := e.compSorts[n]; ok {
 			e.setComp(st, n, Fresh("modf", s))
+		}
+	case "elems":
+		// all elements of the backing array change; everything else is kept
+		et := ml.t.Underlying().(*types.Slice).Elem()
+		var ls []leaf
+		e.leaves(et, nil, compElem(et), &ls)
+		for _, lf := range ls {
+			e.leafComp(lf.comp, lf.t)
+			old := e.comp(st, lf.comp)
+			nw := Fresh("model:"+lf.comp, old.Sort)
+			e.heapBound[nw.SVal] = e.comp(st, allocComp)
+			l := BoundVar(LocS)
+			e.axiom(Forall([]*Term{l}, Implies(Neq(LocObj(l), LocObj(ml.loc)), Eq(Select(nw, l), Select(old, l)))))
+			e.setComp(st, lf.comp, nw)
 		}
 	case "map":
 		mt := ml.t.Underlying().(*types.Map)
